@@ -161,9 +161,12 @@ def _clo(st, universe, idxs, sts):
         st.violation("closure", "exception", case, repr(ex)[:200])
         return
     st.compared += 1
+    f05 = None
     if got != exp:
-        st.violation("closure", "unsound" if got - exp else "incomplete", case,
-                     sorted(_fmt(c) for c in got - exp), sorted(_fmt(c) for c in exp - got))
+        f05 = closure([(tuple(c[0])[0], tuple(c[0])[1], c[1]) for c in chosen], rule="f05")
+        st.violation("closure", "wrong-closure", case,
+                     sorted(_fmt(c) for c in got - exp), sorted(_fmt(c) for c in exp - got),
+                     detail={"f05_model_match": got == f05})
     st.outcome(len(exp))
     if len(idxs) == 2 and len(st.samples) < 1:
         st.sample(case)
@@ -178,7 +181,10 @@ def _clo(st, universe, idxs, sts):
             break
         st.compared += 1
         if bool(got_e) != (t in exp):
-            st.violation("entails", "wrong-verdict", dict(case, probe=_fmt(t)), bool(got_e), t in exp)
+            if f05 is None:
+                f05 = closure([(tuple(c[0])[0], tuple(c[0])[1], c[1]) for c in chosen], rule="f05")
+            st.violation("entails", "wrong-verdict", dict(case, probe=_fmt(t)), bool(got_e), t in exp,
+                         detail={"f05_model_match": bool(got_e) == (t in f05)})
     if universe == "ABC" and chosen:
         # equivalence with (i) its own closure (ii) the set minus its last statement
         for other, name in ((sorted(exp, key=repr), "closure"), (chosen[:-1], "minus-last")):
@@ -193,7 +199,11 @@ def _clo(st, universe, idxs, sts):
                 continue
             st.compared += 1
             if bool(got_eq) != exp_eq:
-                st.violation("is_equivalent", "wrong-verdict", dict(case, other=name), bool(got_eq), exp_eq)
+                fa = closure([(tuple(c[0])[0], tuple(c[0])[1], c[1]) for c in chosen], rule="f05")
+                fb = closure([(tuple(c[0])[0], tuple(c[0])[1], c[1]) for c in other], rule="f05")
+                model = set(other) <= fa and set(chosen) <= fb
+                st.violation("is_equivalent", "wrong-verdict", dict(case, other=name), bool(got_eq), exp_eq,
+                             detail={"f05_model_match": bool(got_eq) == model})
 
 
 def _fmt(c):
